@@ -928,7 +928,7 @@ var codePool = []uint64{1, 2, 3, 4, 5, 6, 7, 0x0d, 0x0e, 0x0f, 0x10, 1, 2, 3, 4,
 
 func TestSubprotoMessages(t *testing.T) {
 	sn := getSubNode()
-	ev.Check(t, ev.N(1800, 48_000), func(t *rapid.T) {
+	ev.Check(t, ev.N(1800, 36_000), func(t *rapid.T) {
 		protoIdx := rapid.IntRange(0, len(sn.pm.SubProtocols)-1).Draw(t, "proto")
 		var id discover.NodeID
 		copy(id[8:], rapid.SliceOfN(rapid.Byte(), 56, 56).Draw(t, "peerid"))
